@@ -3,7 +3,7 @@ CONSTANTS
   World = "A"
   MaxOps = 3
   Workers = {2, 64}
-  CatIds = {"j1", "j3", "j12", "j13", "cx1", "cx2", "cx1b", "cc2", "d2", "d4", "d2b", "e1", "e2", "e1b", "p2", "p0", "pkey", "w2a"}
+  CatIds = {"j1", "j3", "j12", "j13", "jx2", "cx1", "cx2", "cx1b", "cc2", "d2", "d4", "d2b", "e1", "e2", "e1b", "p2", "p0", "pkey", "w2a"}
 INVARIANTS Confluent ResultsOnce WorkerBound WorldOK
 VIEW View
 CHECK_DEADLOCK FALSE
